@@ -54,5 +54,11 @@ func VerifH_C19_BGVPlaintextModulus() {
 			vAssert(r.T == t && r.MaxSlot == r.NT, "accepted-parameters-report-their-plaintext-modulus-and-slots")
 		}
 	}
+	// a plaintext modulus above the first prime of the chain (where level-0 ciphertexts live) is refused, wherever the
+	// larger primes are
+	for i, q := range [][]uint64{{193, 12289, 65537}, {193, 65537}} {
+		vAssert(!VerifSetup_TryBGVParamsQ(q, 257).Ok, "plaintext-modulus-above-the-first-prime-case-"+vItoa(i)+"-is-refused")
+	}
+	vAssert(VerifSetup_TryBGVParamsQ([]uint64{12289, 65537}, 257).Ok, "plaintext-modulus-below-every-prime-is-accepted")
 	vCover("C19-bgv-reached")
 }
